@@ -471,3 +471,58 @@ Example C09_changed_callee_rejected :
   option_map (fun e => (cc_self e, rw_gfield (cc_raw e), cc_callee e)) (first_bad_callee cc)
     = Some (KLink, F_Href, B "LinkHref.Equals").
 Proof. cbv zeta. split; vm_compute; reflexivity. Qed.
+
+(* ==================================================================================================================
+   ---- the primitives ItemsEqual's interpreter applies, under the translator (b41) ----
+   The interpreters of Model/ItemsEqTab.v apply IsNil / IsIRI / IsIRIs / IsItemCollection / IsObject / IsLink (BPred),
+   GetType / GetLink (TOf, SLinkOf) and IsCollection() (BIsCollectionM) as the hand-written functions of Model/Pred.v and
+   Equal.is_collection_m.  Gen/PredT.v (translator/predt.go) holds the BODIES of those functions and of the interface
+   methods of all 17 item types; Model/PredTab.v interprets them on the model's item values.  For every table
+   satisfying pred_table_ok and for all items, that interpreter IS the primitive the ItemsEqual interpreter applies
+   (Proofs/PredTabP.v, PredUseP.v).  Names are qualified: Model/PredTab.v reuses several short names of ItemsEqTab.v. *)
+Require AP.Model.PredTab AP.Model.PredGen AP.Model.PredUse AP.Proofs.PredTabP AP.Proofs.PredUseP.
+
+Theorem C09_pred_table_first_bad : PredTab.first_bad_pred PredGen.gen_pred_fns = None.
+Proof. vm_compute. reflexivity. Qed.
+Theorem C09_pred_table : PredTab.pred_table_ok PredGen.gen_pred_fns = true.
+Proof. vm_compute. reflexivity. Qed.
+
+(* BPred p v: the six package-level predicates, each by the name of the Go function it stands for *)
+Theorem C09_primitives_table_tie : forall tbl, PredTab.pred_table_ok tbl = true -> forall p i,
+  PredTab.sem_pred tbl (PredUse.ipred_fn p) i = Ok (ItemsEqTab.ev_pred p i).
+Proof. exact PredUseP.ev_pred_tie. Qed.
+
+(* TOf v / SLinkOf v / BIsCollectionM v: the interface methods, dispatched on the dynamic type over the same table,
+   with the panics of a nil interface and of a value-receiver method reached through a nil pointer *)
+Theorem C09_get_type_table_tie : forall tbl, PredTab.pred_table_ok tbl = true -> forall i,
+  PredTab.as_bytes (PredTab.sem_dyn tbl PredTab.m_GetType i) = get_type i.
+Proof. exact PredTabP.sem_get_type_tie. Qed.
+Theorem C09_get_link_table_tie : forall tbl, PredTab.pred_table_ok tbl = true -> forall i,
+  PredTab.as_bytes (PredTab.sem_dyn tbl PredTab.m_GetLink i) = get_link i.
+Proof. exact PredTabP.sem_get_link_tie. Qed.
+Theorem C09_is_collection_table_tie : forall tbl, PredTab.pred_table_ok tbl = true -> forall i,
+  PredTab.as_bool (PredTab.sem_dyn tbl PredTab.m_IsCollection i) = ItemsEqTab.is_collection_call i.
+Proof. exact PredUseP.is_collection_call_tie. Qed.
+
+(* on the table of this run: the primitives as the source says them now are the ones ItemsEqual's interpreter applies *)
+Theorem C09_primitives_gen : forall p i,
+  PredTab.sem_pred PredGen.gen_pred_fns (PredUse.ipred_fn p) i = Ok (ItemsEqTab.ev_pred p i).
+Proof. exact (PredUseP.ev_pred_tie PredGen.gen_pred_fns C09_pred_table). Qed.
+
+(* non-vacuity and what the condition is for: the generated table evaluated on a link value, a typed nil pointer and a
+   list; a table whose IsObject lost Tombstone fails the condition, is named by the diagnosis, and its meaning no
+   longer sends a tombstone into the object branch; a table whose Actor.GetLink answers with another property makes an
+   actor and the IRI naming it differ *)
+Example C09_primitives_example :
+  map (fun p => PredTab.sem_pred PredGen.gen_pred_fns (PredUse.ipred_fn p) ie_link)
+      [PIsNil; PIsIRI; PIsIRIs; PIsItemCollection; PIsObject; PIsLink]
+    = [Ok false; Ok false; Ok false; Ok false; Ok false; Ok true] /\
+  PredTab.sem_pred PredGen.gen_pred_fns (B "IsObject") (ITNil KTombstone) = Ok true /\
+  PredTab.sem_pred PredGen.gen_pred_fns (B "IsItemCollection") ie_ab = Ok true /\
+  PredTab.pred_table_ok PredGen.fns_object_without_tombstone = false /\
+  PredTab.diag_where (PredTab.first_bad_pred PredGen.fns_object_without_tombstone) = Some (B "IsObject", Some 0%nat) /\
+  PredTab.sem_pred PredGen.fns_object_without_tombstone (B "IsObject") PredGen.pg_tombstone = Ok false /\
+  PredTab.pred_table_ok PredGen.fns_actor_link_is_mediatype = false /\
+  PredTab.diag_where (PredTab.first_bad_pred PredGen.fns_actor_link_is_mediatype) = Some (B "Actor.GetLink", None) /\
+  PredTab.as_bytes (PredTab.sem_dyn PredGen.fns_actor_link_is_mediatype PredTab.m_GetLink PredGen.pg_actor) = Ok (B "text/plain").
+Proof. repeat split; vm_compute; reflexivity. Qed.
